@@ -4,7 +4,7 @@
 From Coq Require Import List ZArith QArith Qcanon Bool Arith Permutation.
 From Dimod Require Import Base.Util Model.Poly Model.HPoly Model.Samples Model.Comb Model.Solve
   Proofs.CombFacts Proofs.CombGray Proofs.PolyFacts Proofs.HPolyFacts Proofs.SamplesFacts
-  Model.Feas Proofs.FeasFacts Proofs.SolveEnum Proofs.SolveComp Proofs.SolveSamplers.
+  Model.Feas Proofs.FeasFacts Gen.Gen_PolyScale Proofs.SolveEnum Proofs.SolveComp Proofs.SolveScale Proofs.SolveSamplers.
 Import ListNotations.
 Local Open Scope nat_scope.
 
@@ -120,14 +120,48 @@ Print Assumptions C07_mixin_energy_is_submitted_energy.
 (* ================================================================== *)
 (* composites: the energies are the ORIGINAL problem's energies *)
 
-(* PolyScaleComposite, both branches (un-scale / recompute), any non-zero scalar *)
+(* PolyScaleComposite on the code-shaped model (normalize's loop, the inv_scalar formula, the
+   scalar recovered as poly[v] / original[v], `energy /= scalar` - the formulas are GENERATED from
+   the source, Gen/Gen_PolyScale.v): both branches (un-scale / recompute), any non-zero scalar *)
 Theorem C07_polyscale_energy_is_original :
   forall (orig : hpoly) (scalar : option Qc) (lr pr : Qc * Qc) (ign : list (list label)) (r : result),
+    dictlike_b orig = true ->
     (forall k, scalar = Some k -> k <> 0%Qc) ->
     let qk := polyscale_problem scalar lr pr ign orig in
     honest (henergy (fst qk)) r -> honest (henergy orig) (polyscale_result orig (snd qk) ign r).
 Proof. exact polyscale_honest. Qed.
 Print Assumptions C07_polyscale_energy_is_original.
+
+(* the scalar the composite recovers from the biases is the factor that was applied *)
+Theorem C07_ratio_scalar_recovers :
+  forall (k : Qc) (ign : list (list label)) (p : hpoly),
+    dictlike_b p = true ->
+    ratio_scalar ign p (hscale k ign p) =
+    match find (fun t => negb (Qc_eqb (snd t) 0%Qc) && negb (ignored ign t)) p with
+    | Some _ => k
+    | None => 1%Qc
+    end.
+Proof. exact ratio_scalar_recovers. Qed.
+Print Assumptions C07_ratio_scalar_recovers.
+
+(* bias_range / poly_range rule: the normalisation factor is positive and brings every
+   non-ignored linear bias into lin_range and every non-ignored higher-order bias into poly_range *)
+Theorem C07_normalize_within_range :
+  forall (lr pr : Qc * Qc) (ign : list (list label)) (p : hpoly) (k : Qc),
+    (fst lr < 0)%Qc -> (0 < snd lr)%Qc -> (fst pr < 0)%Qc -> (0 < snd pr)%Qc ->
+    normalize_scalar lr pr ign p = Some k ->
+    (0 < k)%Qc /\
+    forall t, In t p -> ignored ign t = false ->
+      (length (fst t) = 1 -> (fst lr <= k * snd t)%Qc /\ (k * snd t <= snd lr)%Qc) /\
+      (1 < length (fst t) -> (fst pr <= k * snd t)%Qc /\ (k * snd t <= snd pr)%Qc).
+Proof. exact normalize_within_range. Qed.
+Print Assumptions C07_normalize_within_range.
+
+Theorem C07_parse_range_number_proper :
+  forall r : Qc, r <> 0%Qc ->
+    (fst (parse_range (RNum r)) < 0)%Qc /\ (0 < snd (parse_range (RNum r)))%Qc.
+Proof. exact parse_range_number_proper. Qed.
+Print Assumptions C07_parse_range_number_proper.
 
 (* PolyFixedVariableComposite: fix, sample, append the fixed columns *)
 Theorem C07_polyfixed_energy_is_original :
@@ -179,6 +213,28 @@ Theorem C07_polymorph_discard :
     exists row0, In row0 (r_rows r) /\ penalty_ok (r_labels r) red row0 = true.
 Proof. exact polymorph_discard. Qed.
 Print Assumptions C07_polymorph_discard.
+
+(* np.argsort's default kind is not stable and the source does not request a stable one in
+   slice/truncate: ANY ordering of the child's (energy,row) pairs that is ascending in energy has
+   the same first n energies as the model's sort, and keeps only pairs of the child *)
+Theorem C07_truncate_any_ascending_order :
+  forall (n : nat) (r : result) (s : list (Qc * list Qc)),
+    Permutation s (combine (r_energies r) (r_rows r)) -> sorted_pairs s ->
+    map fst (firstn n s) = r_energies (truncate_sorted n r) /\
+    (forall x, In x (firstn n s) -> In x (combine (r_energies r) (r_rows r))).
+Proof. exact truncate_any_ascending_order. Qed.
+Print Assumptions C07_truncate_any_ascending_order.
+
+(* PolyFixedVariableComposite: in whatever order the columns are re-inserted (sort_labels) *)
+Theorem C07_polyfixed_reordered_energy_is_original :
+  forall (orig : hpoly) (fs : list (label * Qc)) (r : result) (ls' : list label),
+    (forall row, In row (r_rows r) -> length row = length (r_labels r)) ->
+    (forall f, In f fs -> ~ In (fst f) (r_labels r)) ->
+    hmentions_only orig ls' ->
+    honest (henergy (hfix fs orig)) r ->
+    honest (henergy orig) (reorder_columns ls' (polyfixed_result orig fs r)).
+Proof. exact polyfixed_reordered_honest. Qed.
+Print Assumptions C07_polyfixed_reordered_energy_is_original.
 
 (* HigherOrderComposite: whatever the child returned, the energies are the polynomial's *)
 Theorem C07_polymorph_energy_is_original :
